@@ -724,8 +724,22 @@ def check_walker(ctx):
                 dotc.append(c)
         if not calls:
             loops = [c for c in p.conds if c.kind == 'loop' and c.pol]
+            # an entry that is a directory (or not a file) is not a file of
+            # the directory
+            not_a_file = any(
+                c.kind == 'test' and isinstance(
+                    en.expand(c.expr), ast.Call) and en.expand(
+                        c.expr).args and not is_path(
+                            en.expand(c.expr).args[0]) and (
+                    (c.pol and prog.resolve(
+                        w.module, en.expand(c.expr).func) ==
+                     'ext:os.path.isdir') or
+                    (not c.pol and prog.resolve(
+                        w.module, en.expand(c.expr).func) ==
+                     'ext:os.path.isfile')) for c in p.conds)
             if loops and p.outcome.kind != 'raise' and dotc and all(
-                    not c.pol for c in dotc) and skipped is None:
+                    not c.pol for c in dotc) and skipped is None and \
+                    not not_a_file:
                 skipped = p
             continue
         for lc in calls:
@@ -757,10 +771,16 @@ def check_walker(ctx):
                 note('top', True, 'lists the files of the top level only '
                      '(next(os.walk))', lc.line)
             elif kind == 'listdir':
-                filt = any(c.kind == 'test' and c.pol and isinstance(
-                    en.expand(c.expr), ast.Call) and prog.resolve(
-                        w.module, en.expand(c.expr).func) ==
-                    'ext:os.path.isfile' for c in p.conds)
+                filt = any(c.kind == 'test' and isinstance(
+                    en.expand(c.expr), ast.Call) and (
+                        (c.pol and prog.resolve(
+                            w.module, en.expand(c.expr).func) ==
+                         'ext:os.path.isfile') or
+                        (not c.pol and prog.resolve(
+                            w.module, en.expand(c.expr).func) ==
+                         'ext:os.path.isdir' and not is_path(
+                             en.expand(c.expr).args[0])))
+                    for c in p.conds)
                 note('top', filt, 'lists the directory and keeps files only'
                      if filt else 'directory entries are not filtered to '
                      'files: sub-directories would be loaded as policy files',
